@@ -82,10 +82,9 @@ theorem invG_reach {c : Cfg} {e : Nat} (wf : WF c e) (ok : IdsOK c) {s : St}
     (hr : Reach (step c) (mkInit c) s) : InvAll c s ∧ InvG c s := by
   refine Reach.inv (fun s => InvAll c s ∧ InvG c s) ⟨inv_init wf, invG_init c⟩ ?_ s hr
   intro s tok s' ev h hs
-  simp only [step, Option.map_eq_some_iff] at hs
-  obtain ⟨s1, hs1, heq⟩ := hs
-  cases heq
-  exact ⟨inv_step wf h.1 hs1, invG_step ok h.1.a1 h.2 hs1⟩
+  rcases step_cases hs with hs1 | hs1
+  · exact ⟨inv_spur h.1 hs1, invG_spur h.2 hs1⟩
+  · exact ⟨inv_step wf h.1 hs1, invG_step ok h.1.a1 h.2 hs1⟩
 
 /-- **All writers' messages form a single total order**: the write order `written` (order of the
 release stores of `cursor`) contains every published message exactly once — the `pre` prefilled
@@ -190,10 +189,9 @@ theorem invH_reach {c : Cfg} {e : Nat} (wf : WF c e) (ok : IdsOK c) {s : St}
   refine Reach.inv (fun s => (InvAll c s ∧ InvG c s) ∧ InvH c s)
     ⟨⟨inv_init wf, invG_init c⟩, invH_init c⟩ ?_ s hr
   intro s tok s' ev h hs
-  simp only [step, Option.map_eq_some_iff] at hs
-  obtain ⟨s1, hs1, heq⟩ := hs
-  cases heq
-  exact ⟨⟨inv_step wf h.1.1 hs1, invG_step ok h.1.1.a1 h.1.2 hs1⟩, invH_step h.1.1 h.1.2 h.2 hs1⟩
+  rcases step_cases hs with hs1 | hs1
+  · exact ⟨⟨inv_spur h.1.1 hs1, invG_spur h.1.2 hs1⟩, invH_spur h.2 hs1⟩
+  · exact ⟨⟨inv_step wf h.1.1 hs1, invG_step ok h.1.1.a1 h.1.2 hs1⟩, invH_step h.1.1 h.1.2 h.2 hs1⟩
 
 /-- **A terminated run exchanged everything** (wait / single-wait / busy readers): when every thread
 has finished, every message of every writer is in the write order exactly once and every reader
